@@ -288,8 +288,20 @@ pub struct Meas {
     pub prefix_keys: u64,
 }
 
+thread_local! {
+    /// how the values of the map being built depend on the position of the key (set from the case's seed)
+    pub static VALUE_SHAPE: std::cell::Cell<u64> = std::cell::Cell::new(0);
+}
+/// value of the i-th key: increasing, DECREASING (every key is a new minimum of its subtree, so outputs are
+/// pushed down on every insert), pseudo-random, constant zero, or huge - chosen per case from the seed
 pub fn value_of(i: u64) -> u64 {
-    (i * 7) & ((1u64 << 40) - 1)
+    match VALUE_SHAPE.with(|c| c.get()) % 5 {
+        0 => (i * 7) & ((1u64 << 40) - 1),
+        1 => (1u64 << 40) - 4 * (i & ((1u64 << 36) - 1)),
+        2 => i.wrapping_mul(0x9E37_79B9_7F4A_7C15) >> 24,
+        3 => 0,
+        _ => u64::MAX - (i * 3),
+    }
 }
 
 /// One build configuration: `<kind> <family> <rows> <cols>` + `<fanout> <keylen> <seed>`.
@@ -316,6 +328,7 @@ impl<'a> Cfg<'a> {
 pub fn measure_build(c: &Cfg, n: u64) -> Meas {
     use std::sync::atomic::Ordering::SeqCst;
     let mut g = KeyGen::new(c.family, n, c.fanout, c.keylen, c.seed);
+    VALUE_SHAPE.with(|v| v.set(c.seed / 12));
     mem::reset();
     let mut m = match c.kind {
         "set" | "map" => {
@@ -473,6 +486,7 @@ impl Prop for P {
                             }
                             let seed = 1 + rng.below(1 << 30);
                             stats.bump(&format!("sink_take_all_1_8_7intr_{}", seed % 4));
+                        stats.bump(&format!("map_values_incr_decr_random_zero_hugedecr_{}", (seed / 12) % 5));
                             cases.push(format!("build {} {} {} {} {} {} {} {}", kind, fam, rows, cols, n, fan, kl, seed));
                             stats.bump(&format!("build_n{}", n));
                             stats.bump(&format!("build_family_{}", fam));
@@ -490,6 +504,7 @@ impl Prop for P {
                         }
                         let seed = 1 + rng.below(1 << 30);
                         stats.bump(&format!("sink_take_all_1_8_7intr_{}", seed % 4));
+                        stats.bump(&format!("map_values_incr_decr_random_zero_hugedecr_{}", (seed / 12) % 5));
                         cases.push(format!("build {} {} {} {} {} {} {} {}", kind, fam, dflt.0, dflt.1, n, fan, kl, seed));
                         stats.bump(&format!("build_n{}", n));
                         stats.bump(&format!("build_family_{}", fam));
@@ -517,16 +532,19 @@ impl Prop for P {
                     let seed = 1 + rng.below(1 << 30);
                     if hooked(kind) {
                         stats.bump(&format!("sink_take_all_1_8_7intr_{}", seed % 4));
+                        stats.bump(&format!("map_values_incr_decr_random_zero_hugedecr_{}", (seed / 12) % 5));
                         cases.push(format!("sat {} {} 100 2 {} {} {} {} {}", kind, fam, s1, s2, fan, kl, seed));
                         stats.bump(&format!("sat_family_{}", fam));
                     }
                     if hooked(kind) || fan == 4 {
                         stats.bump(&format!("sink_take_all_1_8_7intr_{}", seed % 4));
+                        stats.bump(&format!("map_values_incr_decr_random_zero_hugedecr_{}", (seed / 12) % 5));
                         cases.push(format!("sat {} {} {} {} {} {} {} {} {}", kind, fam, dflt.0, dflt.1, d1, d2, fan, kl, seed));
                         stats.bump(&format!("sat_family_{}", fam));
                     }
                     if tier == Tier::Thorough && fan == 4 {
                         stats.bump(&format!("sink_take_all_1_8_7intr_{}", seed % 4));
+                        stats.bump(&format!("map_values_incr_decr_random_zero_hugedecr_{}", (seed / 12) % 5));
                         cases.push(format!("sat {} {} {} {} 1000000 10000000 {} {} {}", kind, fam, dflt.0, dflt.1, fan, kl, seed));
                         stats.bump(&format!("sat_family_{}", fam));
                     }
@@ -539,6 +557,7 @@ impl Prop for P {
                         }
                         let seed = 1 + rng.below(1 << 30);
                         stats.bump(&format!("sink_take_all_1_8_7intr_{}", seed % 4));
+                        stats.bump(&format!("map_values_incr_decr_random_zero_hugedecr_{}", (seed / 12) % 5));
                         cases.push(format!("sat {} {} 10 2 {} {} {} {} {}", kind, fam, s1, s2, fan, kl, seed));
                         stats.bump(&format!("sat_family_{}", fam));
                         // (larger caches with fan-out > 4 creep towards the bound for a long time:
